@@ -275,3 +275,42 @@ def thm_rt_octs(c: bytes, xs: seqbytes, n: int, count: int, q: int) -> None:
         lemma_octs_enc_nonempty(c, xs, 0, n, 0, 4, count)
     if 0 <= q and q < n:
         lemma_octs_enc_nth(c, xs, 0, n, 0, 4, q)
+
+
+def thm_rt_ava_filter(e: bytes, num: int, e_attr: bytes, attr_b: bytes, e_val: bytes, val: bytes, tail: bytes) -> None:
+    """equalityMatch / greaterOrEqual / lessOrEqual / approxMatch [num] { attributeDesc, assertionValue }."""
+    lemma_tlv_roundtrip(e, 2, True, num, cat(e_attr, e_val), tail)
+    lemma_tlv_roundtrip(e_attr, 0, False, 4, attr_b, e_val)
+    lemma_tlv_roundtrip(e_val, 0, False, 4, val, empty())
+    assert cat(e_val, empty()) == e_val
+
+
+def thm_rt_bind_request_simple(e_ver: bytes, c_ver: bytes, e_name: bytes, name_b: bytes, e_auth: bytes, pw_b: bytes) -> None:
+    lemma_tlv_roundtrip(e_ver, 0, False, 2, c_ver, cat(e_name, e_auth))
+    lemma_tlv_roundtrip(e_name, 0, False, 4, name_b, e_auth)
+    lemma_tlv_roundtrip(e_auth, 2, False, 0, pw_b, empty())
+    assert cat(e_auth, empty()) == e_auth
+
+
+def thm_rt_bind_request_sasl(e_ver: bytes, c_ver: bytes, e_name: bytes, name_b: bytes, e_auth: bytes, e_mech: bytes, mech_b: bytes,
+                             e_cred: bytes, cred: bytes, has_cred: bool) -> None:
+    lemma_tlv_roundtrip(e_ver, 0, False, 2, c_ver, cat(e_name, e_auth))
+    lemma_tlv_roundtrip(e_name, 0, False, 4, name_b, e_auth)
+    lemma_tlv_roundtrip(e_auth, 2, True, 3, cat(e_mech, ite(has_cred, e_cred, empty())), empty())
+    assert cat(e_auth, empty()) == e_auth
+    lemma_tlv_roundtrip(e_mech, 0, False, 4, mech_b, ite(has_cred, e_cred, empty()))
+    if has_cred:
+        lemma_tlv_roundtrip(e_cred, 0, False, 4, cred, empty())
+        assert cat(e_cred, empty()) == e_cred
+        lemma_tlv_prefix(e_cred, empty())
+
+
+def thm_rt_search_request_fixed(e_base: bytes, base_b: bytes, e_scope: bytes, c_scope: bytes, e_deref: bytes, c_deref: bytes,
+                                e_size: bytes, c_size: bytes, e_time: bytes, c_time: bytes, e_types: bytes, types_only: bool, tail: bytes) -> None:
+    """The six leading components of a SearchRequest, read back one after the other (v_k = what is left after k of them)."""
+    lemma_tlv_roundtrip(e_base, 0, False, 4, base_b, cat(e_scope, e_deref, e_size, e_time, e_types, tail))
+    lemma_tlv_roundtrip(e_scope, 0, False, 10, c_scope, cat(e_deref, e_size, e_time, e_types, tail))
+    lemma_tlv_roundtrip(e_deref, 0, False, 10, c_deref, cat(e_size, e_time, e_types, tail))
+    lemma_tlv_roundtrip(e_size, 0, False, 2, c_size, cat(e_time, e_types, tail))
+    lemma_tlv_roundtrip(e_time, 0, False, 2, c_time, cat(e_types, tail))
+    lemma_tlv_roundtrip(e_types, 0, False, 1, seq1(255 if types_only else 0), tail)
